@@ -5,6 +5,8 @@ Monitor shape: reference model (builtin set / dict) after construction and after
 of seeded histories over mixed int/float keys, plus foreign-typed probes that must leave the
 structure unchanged.
 """
+import sys
+
 from vf import common, instr, seq
 from vf.common import Violation
 from vf.seq import outcome
@@ -13,14 +15,15 @@ PROP = "C09"
 LEVEL = "exploration"
 RULE = ("seeded cases: an initialiser (None, empty list/tuple/generator/dict, unsorted, with repeats incl. 1 vs 1.0, "
         "mapping or iterable of pairs) followed by 0-80 operations (set: add/discard/remove/pop/clear/in/len/iter; "
-        "map: store/delete/pop/popitem/setdefault/update/get/in/items) over a pool of 22 ints and floats (+-inf, "
-        "-0.0, 2**53 neighbours), foreign probes ('a', None, 1j, tuple) through `in` and m[k], and NaN probes (in, lookup, get, and the removal operations of an absent value). Oracle after "
+        "map: store/delete/pop/popitem/setdefault/update/get/in/items) over a pool of 26 ints and floats (+-inf, "
+        "-0.0, 2**53 neighbours, ints beyond the float range and beyond the 4300-digit str() limit), foreign probes ('a', None, 1j, tuple) through `in`, m[k], get and the removal operations that report absence with KeyError / a default (remove, del, pop), and NaN probes (in, lookup, get, and the removal operations of an absent value). Oracle after "
         "construction and after every operation: strictly ascending iteration, content/len/membership/lookup equal "
         "to set/dict. distinct_nontrivial = distinct (kind, content) states with >=2 keys.")
 ASSUMPTIONS = [
     "keys are compared with == (1 and 1.0 are one key; which representative is kept is not judged)",
-    "NaN keys are outside the property (not orderable); foreign values are only *probed* (in, m[k], get), never "
-    "added/discarded",
+    "NaN keys are outside the property (not orderable); foreign values are only *probed* (in, m[k], get, remove, del, "
+    "pop - the operations whose contract is KeyError / default for an absent value), never added; discard(foreign) is "
+    "not judged (the unchanged code lets the TypeError of the comparison through, which corrupts nothing)",
     "SortedSet.pop() may remove any element (set.pop contract); SortedMap.popitem() any pair",
 ]
 NCASES = {"quick": 8000, "thorough": 400000}
@@ -29,7 +32,8 @@ SHARD_TIMEOUT = {"quick": 600, "thorough": 3600}
 MOD = "vf.checks.c09"
 
 POOL = [float("-inf"), -3, -1.5, -1, -1.0, -0.0, 0, 0.0, 1, 1.0, 2, 2.5, 3, 3.0, 7, 2 ** 53, float(2 ** 53), 2 ** 53 + 1,
-        2 ** 53 + 2, 10 ** 30, 1e30, float("inf")]
+        2 ** 53 + 2, 10 ** 30, 1e30, float("inf"), 2 ** 1024, -(2 ** 1024) - 1, 10 ** 400, 10 ** 5000]
+BIG_INTS = (10 ** 30, 2 ** 53 + 1, 2 ** 53 + 2, 2 ** 1024, -(2 ** 1024) - 1, 10 ** 400, 10 ** 5000)
 FOREIGN = ["a", None, 1j, (1, 2), "1"]
 
 SET_OPS = ["add", "add", "discard", "remove", "pop", "clear", "in", "len", "probe"]
@@ -68,17 +72,27 @@ def shrinkable(case):
     return list(case["ops"]), rebuild
 
 
+def _short(x):
+    r = repr(x)
+    return r if len(r) < 60 else f"<int of {len(r)} digits>"
+
+
 def describe(case):
-    return {"kind": case["kind"], "form": case["form"], "init": [repr(POOL[i]) for i in case["init"]],
-            "ops": [f"{o[0]}({POOL[o[1]]!r})" for o in case["ops"]][:30]}
+    return {"kind": case["kind"], "form": case["form"], "init": [_short(POOL[i]) for i in case["init"]],
+            "ops": [f"{o[0]}({_short(POOL[o[1]])})" for o in case["ops"]][:30]}
 
 
 def _g(desc, fn):
+    # the library runs under the interpreter's default limit for int -> str conversion (4300 digits); the harness itself
+    # formats its messages without one (the pool holds an int of 5001 digits)
+    sys.set_int_max_str_digits(4300)
     try:
         with instr.budget(200000):
             return outcome(fn)
     except instr.StepBudgetExceeded:
         raise Violation("operation-does-not-end", f"{desc} exceeded its statement budget", {})
+    finally:
+        sys.set_int_max_str_digits(0)
 
 
 def build(case):
@@ -152,7 +166,7 @@ def check_state(kind, s, model, desc):
     for k in POOL:
         g = _g("membership", lambda: k in s)
         if g != ("ok", k in model):
-            raise Violation("membership", f"after {desc}: {k!r} in s -> {g}, reference {k in model}", {})
+            raise Violation("membership", f"after {desc}: {_short(k)} in s -> {g}, reference {k in model}", {})
     if kind == "map":
         for k in model:
             g = _g("lookup", lambda: s[k])
@@ -165,6 +179,7 @@ def check_state(kind, s, model, desc):
 
 
 def run_case(case, res):
+    sys.set_int_max_str_digits(0)
     kind = case["kind"]
     s, model, desc = build(case)
     res.evaluations += 1
@@ -236,6 +251,15 @@ def run_case(case, res):
                 g = _g(desc, lambda: s.get(f, "dflt"))
                 if g != ("ok", "dflt"):
                     raise Violation("foreign-probe", f"m.get({f!r}) -> {g}, expected default", {})
+                more = [(f"del m[{f!r}]", lambda: s.__delitem__(f), ("exc", "KeyError")),
+                        (f"m.pop({f!r})", lambda: s.pop(f), ("exc", "KeyError")),
+                        (f"m.pop({f!r}, default)", lambda: s.pop(f, "dflt"), ("ok", "dflt"))]
+            else:
+                more = [(f"remove({f!r})", lambda: s.remove(f), ("exc", "KeyError"))]
+            for dsc, fn, want in more:
+                g = _g(dsc, fn)
+                if g != want:
+                    raise Violation("foreign-probe", f"{dsc} -> {g}, expected {want} (content {sorted(model)!r})", {})
             res.count("foreign_probes")
         elif op == "bad_store":
             # stores under keys the map refuses (NaN, foreign types) through every storing method: whatever is raised, the
@@ -313,7 +337,7 @@ def run_case(case, res):
         res.count(f"op_{kind}_{op}")
         check_state(kind, s, model, desc)
         if len(model) >= 2:
-            res.seen((kind, tuple(repr(float(x)) if x not in (10 ** 30, 2 ** 53 + 1, 2 ** 53 + 2) else repr(x)
+            res.seen((kind, tuple(repr(float(x)) if x not in BIG_INTS else _short(x)
                                   for x in sorted(model))))
 
 
